@@ -90,21 +90,57 @@ def regenerate():
     import translate_all
     return translate_all.main(REPO, os.path.join(LEAN, 'Pylx', 'Gen'))
 
+LEAN_RSS_LIMIT_KB = int(os.environ.get('VERIF_LEAN_RSS_LIMIT_GB', '9')) * 1024 * 1024
+LEAN_WALL_LIMIT_S = int(os.environ.get('VERIF_LEAN_WALL_LIMIT_S', '2400'))
+
+def _guard_lean_children(stop):
+    """kills Lean processes of THIS project that outgrow the budget a proof file of this project ever needs (a kernel
+    evaluation over regenerated tables that no longer reduces to `true` can run away); the build then fails, which the
+    check reports as a proof obligation that no longer checks"""
+    killed = []
+    while not stop.wait(3.0):
+        try:
+            out = subprocess.run(['ps', '-eo', 'pid,rss,etimes,args'], stdout=subprocess.PIPE, text=True).stdout
+        except Exception:
+            continue
+        for line in out.split('\n')[1:]:
+            f = line.split(None, 3)
+            if len(f) < 4 or '/bin/lean' not in f[3] or LEAN not in f[3]:
+                continue
+            try:
+                pid, rss, et = int(f[0]), int(f[1]), int(f[2])
+            except ValueError:
+                continue
+            if rss > LEAN_RSS_LIMIT_KB or et > LEAN_WALL_LIMIT_S:
+                try:
+                    os.kill(pid, signal.SIGKILL)
+                    killed.append('%s (rss %.1f GB, %d s)' % (f[3].split(' ')[1] if ' ' in f[3] else f[3], rss / 1048576.0, et))
+                except OSError:
+                    pass
+    return killed
+
 def lake_build(targets=None):
+    import threading
     cmd = ['lake', 'build'] + (targets or [])
-    rc, out = run(cmd, cwd=LEAN, timeout=7200)
+    stop = threading.Event()
+    res = {}
+    th = threading.Thread(target=lambda: res.setdefault('killed', _guard_lean_children(stop)), daemon=True)
+    th.start()
+    try:
+        rc, out = run(cmd, cwd=LEAN, timeout=10800)
+    finally:
+        stop.set(); th.join(10)
+    if res.get('killed'):
+        out += '\n[verif] Lean processes stopped by the resource guard: ' + '; '.join(res['killed'])
     return rc == 0, out
 
 def build_all(prop_module):
-    """Regenerate + build.  Returns dict(driver_ok, proofs_ok, log)."""
+    """Regenerate the tables from the source tree, then build what this property needs: the model driver and the
+    property's own proof modules (with everything they import).  The complete build is setup.sh's job.
+    Returns dict(driver_ok, proofs_ok, log)."""
     with Lock():
         regen = regenerate()
-        ok, log = lake_build()
-        res = {'regen': regen, 'full_ok': ok, 'log': log if not ok else ''}
-        if ok:
-            res['driver_ok'] = True
-            res['proofs_ok'] = True
-            return res
+        res = {'regen': regen, 'log': ''}
         ok_d, log_d = lake_build(['pylxdriver'])
         res['driver_ok'] = ok_d
         if not ok_d:
